@@ -12,17 +12,27 @@ import (
 // codecCase: a one-item collection whose key is an arbitrary byte string (possibly not UTF-8). The
 // first page (size 1) mints a token from that key; the second call uses it.
 type codecCase struct {
-	RPC string `json:"rpc"`
-	Key string `json:"key_hex"`
+	RPC  string `json:"rpc"`
+	Key  string `json:"key_hex"`
+	Init int    `json:"ninit,omitempty"` // 1: the item is an initial record, 0: it comes from the creation API
 }
 
 var codecEdge = []string{
 	"\x00", "a", "\x7f", "\xc2\x80", "\xdf\xbf", "\xe0\xa0\x80", "\xef\xbf\xbf", "\xef\xbb\xbfa", "\xf0\x90\x80\x80", "\xf4\x8f\xbf\xbf",
 	// not UTF-8: lone continuation, overlong forms, surrogates, beyond U+10FFFF, truncated sequences
+	"abcdefghijklmnopqrstuvw", "site-7/lobby/lift-bank-A/hail-0001", "\x00\x00\x00\x00\x00\x00\x00\x00\x00\x00\x00\x00\x00\x00\x00\x00\x00\x00\x00\x00\x00\x00\x00\x00\x00\x00\x00\x00\x00\x00",
 	"\x80", "\xff", "\xc0\xaf", "\xc1\xbf", "\xe0\x80\x80", "\xed\xa0\x80", "\xed\xbf\xbf", "\xf4\x90\x80\x80", "\xf8\x88\x80\x80\x80", "\xe2\x82", "a\xf0\x9f\x98", "ab\xc3",
 }
 
 func genBytes(r *rand.Rand) string {
+	if r.Intn(6) == 0 {
+		// long keys (a generated id has at most 20 characters): valid or not
+		s := ""
+		for n := 21 + r.Intn(300); len(s) < n; {
+			s += genBytes(r)
+		}
+		return s
+	}
 	switch r.Intn(3) {
 	case 0:
 		return codecEdge[r.Intn(len(codecEdge))]
@@ -54,13 +64,17 @@ func genBytes(r *rand.Rand) string {
 	}
 }
 
+// ownTokenRejected: the last codecCase.run saw the server refuse the token it had just issued.
+var ownTokenRejected bool
+
 func (c codecCase) run() (out string, panicMsg string) {
+	ownTokenRejected = false
 	r, _ := rpcByName(c.RPC)
 	kb, _ := hex.DecodeString(c.Key)
 	key := string(kb)
 	var res string
 	p, msg := lib.Catch(func() {
-		inst, err := r.build([]string{key})
+		inst, err := r.build(r, []string{key}, c.Init)
 		if err != nil {
 			res = "build-error: " + err.Error()
 			return
@@ -76,6 +90,9 @@ func (c codecCase) run() (out string, panicMsg string) {
 		}
 		second := inst.list(1, first.Next, nil)
 		res = canon(r.Variant, nil, first) + " | " + canon(r.Variant, nil, second)
+		if first.Next != "" && second.Err != nil {
+			ownTokenRejected = true
+		}
 	})
 	if p {
 		return "panic", msg
@@ -87,7 +104,7 @@ func (rn *runner) codec(r *rand.Rand, tie *lib.Tie, n int) {
 	var cases []codecCase
 	var lines []string
 	add := func(rp rpc, key string) {
-		cases = append(cases, codecCase{RPC: rp.Name, Key: hex.EncodeToString([]byte(key))})
+		cases = append(cases, codecCase{RPC: rp.Name, Key: hex.EncodeToString([]byte(key)), Init: len(cases) % 2})
 		lines = append(lines, "codec "+rp.Variant+" "+hex.EncodeToString([]byte(key)))
 	}
 	for _, rp := range rpcs() {
@@ -121,6 +138,8 @@ func (rn *runner) codec(r *rand.Rand, tie *lib.Tie, n int) {
 			rn.mon.Violate("C15/"+c.RPC+"/codec/panic", "listing a collection whose key is an arbitrary byte string panicked", c, "a response or an error status", "panic: "+pmsg)
 		} else if valid && out == "invalid" {
 			rn.mon.Violate("C15/"+c.RPC+"/codec/valid-key-rejected", "a page token could not be minted from a valid UTF-8 key", c, "a token that decodes to the key", out)
+		} else if ownTokenRejected {
+			rn.mon.Violate("C15/"+c.RPC+"/codec/own-token-rejected", "the server answered the next_page_token it had just issued with an error", c, "the page after the key", out)
 		}
 		if ans != nil {
 			tie.Record(c.RPC+"|"+c.Key, true, c, ans[i], out)
